@@ -98,8 +98,27 @@ def casts(F, res, reach):
 
 
 def _closure_arg_is_index(F, f, du, op):
-    # `.position(..).map(|i| i as i64)` style closures: argument of a closure passed to Option::map on a position()
-    return False
+    """`.position(..).map(|i| i as u32)` style closures: the cast operand is the closure's own parameter and the closure is
+    handed to an Option/iterator adaptor whose receiver is a position / length / enumerate value"""
+    from ..common import closure_creations
+    orig = mir.provenance(f, du, op)
+    if not orig or not all(o.kind == "arg" and o.local >= 2 for o in orig):
+        return False
+    good = False
+    for owner, rv in closure_creations(F, f["path"]):
+        duo = mir.DefUse(owner)
+        # the local the closure value is assigned to, and the call that receives it
+        clocals = {st["lhs"]["l"] for _, _, st in mir.stmts(owner) if st["rv"] is rv}
+        for bi, t in mir.calls(owner):
+            if not any((mir.op_place(a) or {}).get("l") in clocals for a in t["args"][1:]):
+                continue
+            recv = mir.provenance(owner, duo, t["args"][0], transparent_extra=("std::option::Option::<T>::unwrap",))
+            if recv and all(o.kind == "call" and (o.callee.endswith("::position") or o.callee.endswith("::len") or "enumerate" in o.callee
+                                                  or o.callee.endswith("::rposition") or o.callee.endswith("::count")) for o in recv):
+                good = True
+            else:
+                return False
+    return good
 
 
 def arith(F, res, cg, reach):
